@@ -453,6 +453,17 @@ def run_corpus(ctx):
 
 def replay(ctx, data, quiet=False):
     inp = data.get("input", data)
+    if inp.get("stream") == "default-resolver-negative":
+        from corr import C04_default
+        from py_gql import build_schema
+        schema = build_schema(C04_default.SDL)
+        ok = True
+        for label, text, root in C04_default.NOT_ITERATED:
+            impl = C04_default.run_impl_default(schema, text, root)
+            if impl.get("internal") != "RuntimeError":
+                print(label, "->", json.dumps(impl)[:300])
+                ok = False
+        return ok
     if "root" in inp:
         from corr import C04_default
         return C04_default.replay(ctx, inp)
